@@ -129,6 +129,31 @@ def ensure(cfg='full', need_e1=True, log=sys.stderr):
     return facts, (e1 if need_e1 else None)
 
 
+STAGE_SOURCES = {'e1f': ['floatform.py'], 'e1g': ['cmpstage.py'], 'e1h': ['floatform.py', 'digits.py']}
+
+
+def ensure_stage(stage, cfg='full', log=sys.stderr):
+    """an additional analysis stage over the facts of one configuration (own cache file; E1's cache is not touched)"""
+    facts, _ = ensure(cfg, need_e1=False, log=log)
+    d = os.path.dirname(facts)
+    key = _hash_files([os.path.join(VERIF, 'sda', f) for f in E1_SOURCES + STAGE_SOURCES[stage]]).hexdigest()[:12]
+    out = os.path.join(d, f'{stage}-{FACTS_OF.get(cfg, cfg)}-{key}.json')
+    lock = open(os.path.join(d, f'.lock-{stage}-{FACTS_OF.get(cfg, cfg)}'), 'w')
+    fcntl.flock(lock, fcntl.LOCK_EX)
+    try:
+        if not os.path.exists(out):
+            mod = {'e1f': 'sda.floatform', 'e1g': 'sda.cmpstage', 'e1h': 'sda.digits'}[stage]
+            tmp = out + f'.tmp{os.getpid()}'
+            r = subprocess.run([sys.executable, '-m', mod, facts, tmp], capture_output=True, text=True, cwd=VERIF)
+            if r.returncode != 0 or not os.path.exists(tmp):
+                raise AnalysisIncomplete(f'stage {stage} failed: ' + (r.stdout + r.stderr)[-2000:])
+            os.replace(tmp, out)
+    finally:
+        fcntl.flock(lock, fcntl.LOCK_UN)
+        lock.close()
+    return out
+
+
 def load_json(p):
     with open(p) as f:
         return json.load(f)
